@@ -8,7 +8,7 @@ use crate::subject::prep::{run_component, state_with, tpop, TInd};
 use crate::subject::problems::{FKind, Instr, RealP, TagP};
 use crate::subject::sniff::name_of;
 use crate::subject::templates::{EvKind, Flags, HProblem, Spec};
-use mahf::components::misc::cro::{ChemicalReaction, DecompositionUpdate, EnergyBuffer, IntermolecularIneffectiveCollisionUpdate, Molecule, OnWallIneffectiveCollisionUpdate, SynthesisUpdate};
+use mahf::components::misc::cro::{ChemicalReaction, ChemicalReactionInit, DecompositionUpdate, EnergyBuffer, IntermolecularIneffectiveCollisionUpdate, Molecule, OnWallIneffectiveCollisionUpdate, SynthesisUpdate};
 use mahf::heuristics::cro;
 use mahf::state::common::Populations;
 use mahf::verif::{Step, StepEvent, StepObserver};
@@ -121,6 +121,34 @@ fn check_prep(p: &Prep, out: &Outcome<CObs>) -> Option<(String, String)> {
     };
     if pop.len() != expected_len {
         return Some((format!("{} population-size", head), ctx(format!("population size {} -> {}", p.pop.len(), pop.len()))));
+    }
+    None
+}
+
+/// The molecule bookkeeping is (re)built from the current population every time the initialisation
+/// component executes (a CRO restarted inside an outer loop): one record per individual, in order.
+fn check_reinit(sizes: &[usize]) -> Option<(String, String)> {
+    let comp: Box<dyn Component<TagP>> = ChemicalReactionInit::new(1.5, 2.0);
+    let mut st = state_with::<TagP>(vec![vec![]]);
+    let ctx = |w: String| format!("ChemicalReactionInit executed once per population of sizes {:?} on one state: {}", sizes, w);
+    if let Err(e) = comp.init(&TagP, &mut st) {
+        return Some(("C20 init error".into(), ctx(format!("init: {:#}", e))));
+    }
+    for (k, n) in sizes.iter().enumerate() {
+        let pop: Vec<TInd> = (0..*n).map(|i| ((10 * k + i) as u32, i as f64 + 0.5)).collect();
+        *st.populations_mut().current_mut() = tpop(&pop);
+        if let Err(e) = comp.execute(&TagP, &mut st) {
+            return Some(("C20 init error".into(), ctx(format!("execution {}: {:#}", k, e))));
+        }
+        let reaction = st.borrow::<ChemicalReaction<TagP>>();
+        let mols: Vec<(u32, f64)> = reaction.iter().map(|m| (*m.best.solution(), m.kinetic_energy)).collect();
+        let exp: Vec<(u32, f64)> = pop.iter().map(|i| (i.0, 1.5)).collect();
+        if mols != exp {
+            return Some((
+                format!("C20 init molecules-misaligned {}", if k == 0 { "first-execution" } else { "re-execution" }),
+                ctx(format!("after execution {} on {} individuals there are {} molecule records (remembered solution, kinetic energy) {:?}, expected {:?}", k, n, mols.len(), mols, exp)),
+            ));
+        }
     }
     None
 }
@@ -317,6 +345,19 @@ pub fn run(rep: &mut Report) {
     let seed = rep.seed;
     let ps = preps(thorough);
     let (menu, depth): (&[u64], usize) = if thorough { (&MENU8, 3) } else { (&MENU4, 3) };
+    let mut part = Part::new("reaction-init.re-execution");
+    for l in 1..=3usize {
+        for seq in sequences(4, l) {
+            part.transitions += l as u64;
+            part.traces += 1;
+            part.states += 1;
+            part.outcome(format!("executions:{}", l));
+            if let Some((s, d)) = check_reinit(&seq) {
+                part.violate(s, d, json!({"kind": "reinit", "sizes": seq, "tape": [], "thorough": thorough, "seed": seed}));
+            }
+        }
+    }
+    rep.push(part);
     let mut part = Part::new("reactions.prepared-stacks");
     part.bound("prepared_stacks", ps.len() as u64).bound("prefix_depth", depth as u64).bound("menu_words", menu.len() as u64);
     let subs: Vec<Part> = ps
@@ -405,6 +446,10 @@ pub fn replay(case: &Value) -> Result<Vec<(String, String)>, String> {
     let seed = case["seed"].as_u64().unwrap_or(0);
     let tape: Vec<u32> = case["tape"].as_array().ok_or("no tape")?.iter().map(|x| x.as_u64().unwrap() as u32).collect();
     match case["kind"].as_str().unwrap_or("") {
+        "reinit" => {
+            let sizes: Vec<usize> = case["sizes"].as_array().ok_or("no sizes")?.iter().map(|x| x.as_u64().unwrap() as usize).collect();
+            Ok(check_reinit(&sizes).into_iter().collect())
+        }
         "prep" => {
             let want = case["prep"].as_str().ok_or("no prep")?;
             let ps = preps(thorough);
